@@ -445,6 +445,9 @@ def gen_storage_case(rng, kind, size):
     times ("read"); stores / checks pass the serial of that view."""
     noids = rng.choice([1, 2, 2, 3])
     oids = list(range(1, noids + 1))
+    if rng.random() < 0.25:
+        # boundary oids: bucket edge of fsIndex, 0x00 / 0xff bytes, high bit, near 2^64
+        oids = rng.sample([65535, 65536, 0x00ff00ff00ff00ff, 2 ** 63 + 9, 2 ** 64 - 2, 255, 256], noids)
     cls = {oid: rng.choice([PLAIN, PLAIN, COUNTER, COUNTER, MERGE, 3, 4]) for oid in oids}
     writers = [1, 2, 3][:rng.choice([2, 2, 3])]
     ops = []
@@ -771,7 +774,8 @@ class DbWorld:
         self.case = case
         self.storage, self.base = L.make_storage(case['kind'], tmp, tag)
         self.rec = L.Recorder(self.storage, L.tid_reader(self.storage))
-        self.db = ZODB.DB(self.storage)
+        opts = {k: v for k, v in (('pool_size', L.BUILD.get('pool')), ('cache_size', L.BUILD.get('cache'))) if v is not None}
+        self.db = ZODB.DB(self.storage, **opts)
         tm = transaction.TransactionManager()
         conn = self.db.open(tm)
         root = conn.root()
@@ -1290,13 +1294,24 @@ def install_file_proxy(storage):
     return notes
 
 
-def history_body(w, objs, n):
+def history_body(w, objs, n, mix=True):
     def body():
         out = []
         for i in range(n):
             o = objs[i % len(objs)]
+            oid = L.p64(w.oids[o])
             try:
-                out.append([L.u64(d['tid']) for d in w.storage.history(L.p64(w.oids[o]), 10)])
+                h = [L.u64(d['tid']) for d in w.storage.history(oid, 10)]
+                out.append(h)
+                if mix and i % 2:
+                    # other readers of the storage's shared file object / of its in-memory tables
+                    st = w.storage
+                    st.getTid(oid)
+                    st.lastTransaction()
+                    if h:
+                        st.loadSerial(oid, L.p64(h[-1]))
+                    if hasattr(st, 'undoLog'):
+                        st.undoLog(0, 3)
             except Exception as e:
                 out.append(type(e).__name__)
         return out
@@ -1354,7 +1369,7 @@ def run_histrace_real(case, tmp, tag='h'):
                 a0.do(['write', 0, o, 1, False])
                 a0.do(['commit', 0])
             s.spawn('c0', writer)
-            s.spawn('h', history_body(w, [o], 1))
+            s.spawn('h', history_body(w, [o], 1, mix=False))
             r = s.run(timeout=60)
             if r['deadlock']:
                 raise Stuck('directed history schedule deadlocked (errors %r)' % (
@@ -1431,7 +1446,14 @@ def run_threads_smoke(kind, tmp, n_iter, tag='p'):
 
 
 # =============================================================================== running a case
+def gen_build(rng):
+    """construction path of the case's storage / DB: constructor vs ZODB.config, non-default DB options"""
+    return dict(config=rng.random() < 0.3, pool=rng.choice([None, None, 1, 3]),
+                cache=rng.choice([None, None, 0, 1, 400]))
+
+
 def run_real(case, tmp, tag):
+    L.BUILD = case.get('build') or {}
     if case['section'] == 'storage':
         ops, obs = run_storage_real(case, tmp, tag)
         return dict(ops=ops, obs=obs)
@@ -1444,9 +1466,33 @@ def run_real(case, tmp, tag):
     return run_sched_real(case, tmp, tag)
 
 
+class CaseTimeout(Exception):
+    """a single case ran into the per-case watchdog: a verdict with this case as failing input"""
+
+
+def watchdog(seconds):
+    """per-case alarm (main thread of the process only): a blocked step becomes a verdict instead of a
+    hang until the global watchdog"""
+    import signal
+    import threading
+    if threading.current_thread() is not threading.main_thread() or not hasattr(signal, 'SIGALRM'):
+        return lambda: None
+
+    def onalarm(signum, frame):
+        raise CaseTimeout('case did not finish within %d s' % seconds)
+    old = signal.signal(signal.SIGALRM, onalarm)
+    signal.alarm(seconds)
+
+    def cancel():
+        signal.alarm(0)
+        signal.signal(signal.SIGALRM, old)
+    return cancel
+
+
 def run_real_safe(case, tmp, tag):
     """an exception escaping the real code where the unchanged code raises none is a verdict
     (signature C03:unexpected-exception:<type>), not an infrastructure error"""
+    cancel = watchdog(240)
     try:
         return run_real(case, tmp, tag)
     except (InfraError, KeyboardInterrupt):
@@ -1454,6 +1500,8 @@ def run_real_safe(case, tmp, tag):
     except BaseException as e:  # noqa: B902
         import traceback
         return dict(ops=[], obs=[], crash=(type(e).__name__, traceback.format_exc()[-1200:]))
+    finally:
+        cancel()
 
 
 def judge(case, res):
@@ -1534,9 +1582,11 @@ def main(argv=None):
                     with open(os.path.join(cdir, fn)) as f:
                         cases.append(json.load(f))
         n_st, n_db, n_sc = (60, 40, 100) if not ck.thorough else (2500, 1500, 4000)
-        for kind in KINDS + ['mvccmapping']:
+        for kind in KINDS + ['mvccmapping', 'hex:file']:
             if kind == 'mvccmapping':
                 n_st, n_db, n_sc = n_st // 3, n_db, n_sc // 2
+            if kind == 'hex:file':
+                n_st, n_db, n_sc = n_st // 2, n_db // 2, n_sc // 2
             for _ in range(n_st):
                 cases.append(gen_storage_case(ck.rng, kind, ck.rng.choice([12, 25, 40, 60])))
             if kind == 'file':
@@ -1552,6 +1602,9 @@ def main(argv=None):
                         for later in (1, 2):
                             cases.append(dict(section='histrace', kind=kind, objs=['o0'], cls={'o0': c},
                                               nconn=2, later=later))
+    for c in cases:
+        if 'build' not in c and c.get('section') in ('storage', 'db', 'sched') and not ck.replay_path:
+            c['build'] = gen_build(ck.rng)
     results = run_all(ck, cases)
     # ---- model: one driver process for everything
     lines, spans = [], []
